@@ -38,7 +38,14 @@ class ExternMixin:
     def bi_next(self, args, kw, node):
         a = args[0]
         if a.k == 'opq' and a.x == 'rowgen':
-            # X-NP: the next row of the chunk stream (exhaustion is excluded by the row-count contract of the chunk generator)
+            # the next row of the chunk stream; the ghost `rows_left` counts what the generator can still yield
+            # (the chunk generator yields exactly n_rows rows: SourceDataWrapper.make_chunked_generator's contract)
+            left = self.st.ghost.get('rows_left')
+            if left is None:
+                raise Unsupported('next() on the row generator without the ghost rows_left')
+            if self.branch(self.as_int(left) <= 0):
+                raise PyRaise('StopIteration')
+            self.st.ghost['rows_left'] = VI(self.as_int(left) - 1)
             return SV('opq', self.sym('row', OPQ), 'row')
         if a.k == 'gen':
             return SV('opq', self.sym('row', OPQ), 'row')
@@ -67,6 +74,9 @@ class ExternMixin:
 
     def bi_in_seq(self, args, kw, node):
         return VB(z3.Contains(self.list_as_seq(args[1]), z3.Unit(self.elem_code(args[0]))))
+
+    def bi_fresh_int(self, args, kw, node):
+        return VI(self.sym('fresh', INT))
 
     def bi_fresh_refs(self, args, kw, node):
         return SV('seq', self.sym('refs', SEQ), 'ref')
